@@ -51,7 +51,34 @@ func allTerms(p *Program) []Term {
 
 // Mutate applies one mutation in place and describes it ("" if none applied).
 func Mutate(p *Program, intn func(int) int) string {
-	switch intn(6) {
+	switch intn(7) {
+	case 6: // call a different definition of the same arity
+		var cands []*Call
+		for _, t := range allTerms(p) {
+			if x, ok := t.(*Call); ok {
+				cands = append(cands, x)
+			}
+		}
+		if len(cands) == 0 || len(p.Defs) < 2 {
+			return ""
+		}
+		x := cands[intn(len(cands))]
+		n := len(x.Args)
+		if n > 0 && x.Args[0] == "self" {
+			n--
+		}
+		var others []string
+		for _, d := range p.Defs {
+			if d.Name != x.F && len(d.Params) == n {
+				others = append(others, d.Name)
+			}
+		}
+		if len(others) == 0 {
+			return ""
+		}
+		old := x.F
+		x.F = others[intn(len(others))]
+		return fmt.Sprintf("call of %s replaced by a call of %s", old, x.F)
 	case 0, 1:
 		return ApplyWrongAlias(p, intn)
 	case 2: // swap payload and continuation of a send, or two arguments of a call
